@@ -813,7 +813,10 @@ func (g *G) recursionStmt() []Stmt {
 	g.declare(&Var{Name: name, K: KFn, NoAssign: true, Sig: &FnSig{NP: 2, Ret: KAny, FnParam: -1, Shadow: false}})
 	// do not let other generated code call it with arbitrary depth: mark as shadow-like (uncallable by callOf)
 	g.lookup(name).Sig = nil
-	form := g.pick(4, "recform")
+	form := g.pick(5, "recform")
+	if form == 4 {
+		return g.closureChainStmt(name)
+	}
 	depth := int64(g.intn(0, 6, "recdepth"))
 	var body []Stmt
 	n, acc := "n", "acc"
@@ -873,6 +876,55 @@ func (g *G) recursionStmt() []Stmt {
 		&Assign{Targets: []Expr{Id(name)}, Op: "=", X: fl},
 		use,
 	}
+}
+
+// closureChainStmt: several closures made from ONE function literal (a factory called with different
+// captured values) that call each other - the next instance, not themselves - in tail position, in
+// discarded-last position or inside an expression. Instances share their code but not their captured
+// variables: a call of another instance is not a self call.
+func (g *G) closureChainStmt(name string) []Stmt {
+	g.f("closure-instances-tail-call-each-other")
+	n := g.intn(2, 4, "chainlen")
+	kind := g.pick(3, "chainkind")
+	var step Stmt
+	next := &Call{Fn: Id("next"), Args: []Expr{&Binary{Op: "-", L: Id("n"), R: IntLit(1)}}}
+	switch kind {
+	case 0:
+		step = &Return{Xs: []Expr{next}} // tail call of another instance
+	case 1:
+		step = &Return{Xs: []Expr{&ArrayLit{Elems: []Expr{Id("tag"), next}}}} // not a tail call
+	default:
+		step = &If{Cond: &Binary{Op: "==", L: &Binary{Op: "%", L: Id("n"), R: IntLit(2)}, R: IntLit(0)},
+			Then: []Stmt{&Return{Xs: []Expr{next}}}, HasElse: true, Else: []Stmt{&ExprStmt{X: next}, &Return{Xs: []Expr{Id("tag")}}}}
+	}
+	var pre []Stmt
+	if g.cfg.Log {
+		pre = append(pre, &ExprStmt{X: g.L(&ArrayLit{Elems: []Expr{Id("tag"), Id("n")}})})
+	}
+	inner := &FuncLit{Params: []string{"n"}, Body: append(pre,
+		&If{Cond: &Binary{Op: "||", L: &Binary{Op: "<=", L: Id("n"), R: IntLit(0)}, R: &Binary{Op: "==", L: Id("next"), R: UndefLit()}}, Then: []Stmt{&Return{Xs: []Expr{Id("tag")}}}},
+		step)}
+	mk := name + "mk"
+	out := []Stmt{
+		&VarDecl{Names: []string{name}, Values: []Expr{nil}}, // the generator knows this name: keep it declared
+		&Define{Names: []string{mk}, X: &FuncLit{Params: []string{"tag", "next"}, Body: []Stmt{&Return{Xs: []Expr{inner}}}}},
+	}
+	prev := Expr(UndefLit())
+	for i := 0; i < n; i++ {
+		inst := fmt.Sprintf("%si%d", name, i)
+		out = append(out, &Define{Names: []string{inst}, X: &Call{Fn: Id(mk), Args: []Expr{StrLit(string(rune('a' + i))), prev}}})
+		prev = Id(inst)
+	}
+	last := fmt.Sprintf("%si%d", name, n-1)
+	var results []Expr
+	for d := 0; d <= n; d++ {
+		results = append(results, &Call{Fn: Id(last), Args: []Expr{IntLit(int64(d))}})
+	}
+	var use Stmt = &ExprStmt{X: &ArrayLit{Elems: results}}
+	if g.cfg.Log {
+		use = &ExprStmt{X: g.L(&ArrayLit{Elems: results})}
+	}
+	return append(out, use)
 }
 
 // escapeStmt: a closure created inside a block captures block-local variables
